@@ -69,6 +69,21 @@ class Val:
         return f"Val({self.label})"
 
 
+class AwVal:
+    """A successful result that happens to be awaitable (a job handle, a Future-like object)."""
+
+    def __init__(self, label: str) -> None:
+        self.label = label
+
+    def __await__(self):
+        if False:  # pragma: no cover - makes this a generator
+            yield
+        return "unwrapped:" + self.label
+
+    def __repr__(self) -> str:
+        return f"AwVal({self.label})"
+
+
 class Res:
     """A returned value that the result classifier treats as a failure."""
 
@@ -253,6 +268,8 @@ class CallState:
         self.susp = 0
         self.yields = 0
         self.pending_us = None
+        self.none_failure = None
+        self.handler_dur = script.get("handler_dur") or []
         self.objects = {}
         self.last_cls_obj = None
         self.task = None
@@ -394,10 +411,15 @@ class Env:
         if kind == "res" and not getattr(cs, "res_enabled", self.res_enabled):
             kind = "ok"  # without a result classifier every returned object is a success
         if kind == "ok":
-            v = Val("V" + lab)
+            v = AwVal("V" + lab) if step.get("aw") else Val("V" + lab)
             cs.objects[v.label] = v
             self.ev("OP_END", k=k, kind="ok", obj=v.label)
             return v
+        if kind == "res" and step.get("none"):
+            # poll-until-ready style: the operation returns None and the result classifier calls that a failure
+            cs.none_failure = (step["cls"], step.get("ra"))
+            self.ev("OP_END", k=k, kind="res", cls=step["cls"], obj=None, ra=step.get("ra"), none=True)
+            return None
         if kind == "res":
             r = Res("R" + lab, step["cls"], step.get("ra"))
             cs.objects[r.label] = r
@@ -478,6 +500,14 @@ class Env:
     def result_classifier(self, result):
         cs = self.cs()
         i = cs.count("result_classifier")
+        if result is None and cs.none_failure is not None:
+            cls, ra = cs.none_failure
+            cs.none_failure = None
+            self.ev("RCLASSIFY", obj=None, cls=cls, i=i)
+            f = self.fault("result_classifier", i)
+            if f is not None:
+                raise f
+            return self._classification(cs, cls, ra)
         if isinstance(result, Res):
             self.ev("RCLASSIFY", obj=result.label, cls=result.cls, i=i)
             f = self.fault("result_classifier", i)
@@ -502,6 +532,15 @@ class Env:
                 return env._strategy(which, "ctx", ctx.attempt, ctx.klass, ctx.prev_sleep_s,
                                      ctx.remaining_s, ctx.cause, ctx.classification)
         strategy.__name__ = f"strategy_{which}"
+        if self.cfg.get("feedback") and style != "legacy":
+            # stateful-strategy protocol (adaptive()): the loop reports failures / successes back
+            def record_failure(klass=None):
+                env.ev("STRAT_FB", which=which, what="failure", cls=getattr(klass, "name", None))
+
+            def record_success():
+                env.ev("STRAT_FB", which=which, what="success")
+            strategy.record_failure = record_failure
+            strategy.record_success = record_success
         return strategy
 
     def _strategy(self, which, style, attempt, klass, prev, remaining, cause, classification):
@@ -541,6 +580,11 @@ class Env:
             j = cs.count("handler")
             d = cs.decisions[j] if j < len(cs.decisions) else "S"
             env.ev("HANDLER", which=which, sleep_s=fnum(sleep_s), ctx=env._ctx_fields(ctx), decision=d, j=j)
+            if cs.handler_dur:
+                hd = cs.handler_dur[j % len(cs.handler_dur)]
+                if hd:
+                    env.spend(hd)       # a slow (blocking) sleep handler
+                    env.fired("slow_handler")
             f = env.fault("handler", j)
             if f is not None:
                 raise f
